@@ -51,6 +51,15 @@ fn script_case(em: &mut Emitter, mode: u8, ctx: Ctx, before: &[Node], content: &
     ps.push(Prog::ReadAll);
     let ps = in_ctx(ctx, ps);
     let (c2, after2, before2) = (content.to_vec(), after.to_vec(), before.to_vec());
+    // the value cut short by the end of the input (its header still announces the full content): whatever
+    // the content code does, the read fails - octets that are not there are never "the end of the content"
+    if ctx == Ctx::Top && after.is_empty() && !content.is_empty() {
+        for cutoff in [1usize, (content.len() + 1) / 2, content.len()] {
+            if cutoff > content.len() { continue }
+            let cut = data[..data.len() - cutoff].to_vec();
+            prog_case(em, 301, mode, &ps, &cut, |obs| match obs.first() { Some(1) => Oracle::Pass, Some(3) => Oracle::Fail("panic".into()), _ => Oracle::Fail("value-cut-short-by-the-end-of-input-accepted".into()) }, true);
+        }
+    }
     prog_case(em, 301, mode, &ps, &data, move |obs| {
         if obs.first() == Some(&3) { return Oracle::Fail("panic".into()) }
         let (rlog, used) = ref_script(&c2, &sc);
